@@ -5,6 +5,8 @@ import SynKitProofs.AutomorphismOrbits
 import SynKitProofs.AutomorphismWL
 import SynKitProofs.AutomorphismComponents
 import SynKitProofs.AutomorphismCoarser
+import SynKitProofs.ReactorLink
+import SynKitProofs.Props.C05
 /-!
 # C11 — automorphism groups and orbits are exact; the orbit estimate never separates an orbit;
 de-duplication returns a sub-list
@@ -22,6 +24,8 @@ distinct reactions") is a statement about `SynReactor` and is not provable from
 `deduplicate_matches_with_anchor` alone: its signature merges matches that are not related by any
 automorphism of the pattern (`dedup_merges_non_automorphic` below), see DESIGN §6 F11.  What holds
 for the de-duplication on its own is `dedup_sublist`, `dedup_nodup_sig`, `dedup_complete`, `dedup_id`.
+For the modelled reactor with the REPAIRED pruning (`pruneByAut`, draft fix 0015) the clause is proved:
+`C11.pruning_clause_model`, hence `C11.full_model`.
 -/
 namespace SynKit.Aut
 open SynKit SynKit.Match
@@ -266,6 +270,36 @@ theorem C11.full_partial (ReactorClause : Prop) (hR : ReactorClause) : C11.FullS
       exact ⟨(aut_count_components c G hwf hdis).1, fun u v => (orbits_exact_components c G hwf hdis u v).1⟩
   · intro c G hwf m hm u v huv
     exact ⟨fun k => wl_coarsens c G hwf m hm u v huv k, est_never_separates c G hwf m hm u v huv⟩
+
+/-- **C11, reactor clause, for the modelled reactor with the repaired pruning** (`pruneByAut`, draft
+fix 0015): pruning the matches by the automorphisms of the rule never changes the set of reactions
+obtained, compared with gluing at every match (`ReactorLink.PruningClauseModel`; proof:
+`ReactorLink.glue_aut_iso` — matches that differ by a rule automorphism glue to isomorphic ITS
+graphs — and `prune_preserves_results_on`).  For the pruning as coded on the pinned tree the clause
+is false (`dedup_merges_non_automorphic`, DESIGN §6 F11). -/
+theorem C11.pruning_clause_model : SynKit.ReactorLink.PruningClauseModel :=
+  fun maxGroup host T ms hH hT hms =>
+    SynKit.ReactorInv.C05.prune_preserves_implicitResults maxGroup host T ms hH hT hms
+
+/-- **C11 at full strength for the model**: every clause, the reactor clause being that of the
+modelled reactor with the repaired pruning. -/
+theorem C11.full_model : C11.FullStatement SynKit.ReactorLink.PruningClauseModel :=
+  C11.full_partial _ C11.pruning_clause_model
+
+/-- Non-vacuity of the reactor clause: a well-formed substrate and rule with two exchangeable atoms;
+the exhaustive search finds two matches (each an `IsMono`, by `mem_allMonos`), the rule has two
+automorphisms, the pruning keeps one match. -/
+example : SynKit.Reactor.WFHost SynKit.ReactorLink.exSymHost ∧ SynKit.Reactor.WFTemplate SynKit.ReactorLink.exSymRule ∧
+    (allMonos SynKit.Reactor.monoSel SynKit.ReactorLink.exSymHost (SynKit.Reactor.left SynKit.ReactorLink.exSymRule)).length = 2 ∧
+    (auts SynKit.ReactorLink.itsSel SynKit.ReactorLink.exSymRule).length = 2 ∧
+    (SynKit.ReactorInv.pruneByAut 5040 (SynKit.Reactor.left SynKit.ReactorLink.exSymRule).ids
+      (auts SynKit.ReactorLink.itsSel SynKit.ReactorLink.exSymRule)
+      (allMonos SynKit.Reactor.monoSel SynKit.ReactorLink.exSymHost (SynKit.Reactor.left SynKit.ReactorLink.exSymRule))).length = 1 := by
+  decide
+
+example : ∀ m ∈ allMonos SynKit.Reactor.monoSel SynKit.ReactorLink.exSymHost (SynKit.Reactor.left SynKit.ReactorLink.exSymRule),
+    IsMono SynKit.Reactor.monoSel SynKit.ReactorLink.exSymHost (SynKit.Reactor.left SynKit.ReactorLink.exSymRule) m :=
+  fun m hm => (mem_allMonos _ _ _ (SynKit.Reactor.left_wf _ (by decide)) m).1 hm
 
 /-! ### non-vacuity and witnesses -/
 
